@@ -1,3 +1,4 @@
+mod config;
 mod gen;
 mod net;
 mod oracle;
@@ -192,6 +193,19 @@ fn main() {
             std::fs::write(format!("{}/oracle.txt", out), v).unwrap();
             let kinds: Vec<String> = o.kinds.iter().map(|(k, n)| format!("\"{}\":{}", k, n)).collect();
             std::fs::write(format!("{}/stats.json", out), format!("{{\"suite\":\"stress\",\"profile\":\"{}\",\"seed\":{},\"programs\":{},\"cases\":{},\"lines\":1,\"distinct_nontrivial\":{},\"round_kinds\":{{{}}},\"oracle_violations\":{}}}\n", profile, seed, o.rounds, o.rounds, o.kinds.len(), kinds.join(","), o.violations.len())).unwrap();
+        }
+        "config" => {
+            let bin = get("bin", "/verif/.work/memcrsd-target/debug/memcrsd");
+            let o = config::run(&bin, seed, get("tier", "quick") == "thorough");
+            std::fs::write(format!("{}/ops.txt", out), o.ops.join("\n") + "\n").unwrap();
+            std::fs::write(format!("{}/impl.txt", out), o.outs.join("\n") + "\n").unwrap();
+            let mut v = String::new();
+            for (a, b, props, msg) in &o.viols {
+                v.push_str(&format!("VIOL props={} start={} end={} line={} msg={}\n", props.join(","), a, b, a, msg));
+            }
+            std::fs::write(format!("{}/oracle.txt", out), v).unwrap();
+            let cfgs: Vec<String> = o.configs.iter().map(|c| format!("\"{}\"", c)).collect();
+            std::fs::write(format!("{}/stats.json", out), format!("{{\"suite\":\"config\",\"profile\":\"{}\",\"seed\":{},\"programs\":{},\"cases\":{},\"lines\":{},\"distinct_nontrivial\":{},\"configurations\":[{}],\"oracle_violations\":{}}}\n", profile, seed, o.ops.iter().filter(|l| l.starts_with("ext ")).count(), o.ops.iter().filter(|l| l.starts_with("ext ")).count(), o.ops.len(), o.configs.len(), cfgs.join(","), o.viols.len())).unwrap();
         }
         "grid" => {
             let mut r = seq::Runner::new();
